@@ -75,7 +75,7 @@ def gameLoop : Nat → Board → Engine.ThreeFold → Nat → List Nat → Excep
     match ks with
     | [] => .ok (.stillPlaying, b)
     | k :: ks' =>
-      let r := Engine.search b tf k prevDepth
+      let r := Engine.search false b tf k prevDepth   -- `Engine::default()`: `positional = false`
       match r.move with
       | none => .ok (.noMove, b)
       | some mv =>
